@@ -105,6 +105,29 @@ example :
     (snap s 4).isSome := by
   decide +kernel
 
+/-- validation in a category WITH limits (0 ≤ x ≤ 100 m): `IsValid()` / `CheckValidity()` scan the unsorted
+container `[3, 1, 2]` (valid) and `[300, 1] cm`, `[3, 200]` (the second one invalid), cache the verdict on the
+object (the memo table) and leave container 0 exactly as it was; the second `CheckValidity()` answers from the
+memo -/
+example :
+    let ops := [Op.mkArray .ndarray [3, 1, 2] exM exLim, .isValid 0, .checkValidity 0, .mkArray .list [3, 200] exM exLim,
+                .isValid 1, .checkValidity 1, .checkValidity 1, .mkArray .tuple [300, 1] exCm exLim, .isValid 2]
+    let s := run exDbLim St.empty ops
+    let outs := outputs exDbLim St.empty ops
+    s.heap[0]? = some (.seq .ndarray [3, 1, 2]) ∧ outIs outs[1]? (.bool true) ∧ outIs outs[2]? .unit ∧
+    outIs outs[4]? (.bool false) ∧ errIs outs[5]? .value ∧ errIs outs[6]? .value ∧
+    outIs outs[8]? (.bool true) ∧ s.valid = [(2, none), (1, some .value), (0, none)] := by
+  decide +kernel
+
+/-- the caller writes into the list it got from `GetValues('cm')`: that list is a new cell (5), the Array's
+own container (cell 0) and a later `GetValues('cm')` (cell 6) are unaffected -/
+example :
+    let ops := [Op.mkArray .list [1, 2] exM exLength, .scribble 0 (some exCm) .clear, .getValue 0 (some exCm)]
+    let s := run exDb St.empty ops
+    s.heap[0]? = some (.seq .list [1, 2]) ∧ s.heap[2]? = some (.seq .list []) ∧
+    s.heap[3]? = some (.seq .list [100, 200]) := by
+  decide +kernel
+
 /-! ## Sharing that the code does on purpose (modelled as it is) and freshness of conversion results -/
 
 /-- `Array.GetValues()` / `GetValues(own unit)` hands out the INTERNAL container (no copy) and changes
